@@ -105,6 +105,39 @@ def c101(ctx):
     for key in ("sst::SstBuilder::enforce_sort_order", "sst::block::BlockBuilder::enforce_sort_order"):
         f = ctx.fn(R, key)
         if f:
+            cm = P.call_points(f, r"Ord>::cmp$|::cmp$")
+            rel = [p_ for p_ in P.call_points(f, r"PartialOrd>?::(ge|gt|le|lt)$|::(ge|gt|le|lt)$") if "KeyRef" in (P.term_at(f, p_).get("ga") or "") + (P.term_at(f, p_).get("callee") or "")]
+            if not cm and rel:
+                # the same test written with a comparison operator: `last >= new` refuses, i.e. Ok only when last < new strictly
+                def deep(o_):
+                    out_ = []
+                    for s_ in P.origins(f, o_):
+                        out_.append(s_)
+                        if s_["k"] == "call" and re.search(r"KeyRef::(new|from)$", s_["callee"]):
+                            out_ += [x_ for a_ in s_["t"]["args"] for x_ in P.origins(f, a_)]
+                    return out_
+                is_last = lambda o_: any(s_["k"] == "field" and s_["f"] in ("last_key", "last_timestamp") for s_ in deep(o_))
+                for p in P.ok_points(f):
+                    g = False
+                    for bb, lab, ss in K.guards(f, p):
+                        for s_ in ss:
+                            if s_["k"] == "call" and s_["pt"] in rel:
+                                op_ = s_["callee"].rsplit("::", 1)[-1]
+                                a0, a1 = s_["t"]["args"][0], s_["t"]["args"][1]
+                                if is_last(a0) and not is_last(a1):
+                                    g = g or (op_ == "ge" and lab == "sw:0") or (op_ == "lt" and lab == "sw:1")
+                                elif is_last(a1) and not is_last(a0):
+                                    g = g or (op_ == "le" and lab == "sw:0") or (op_ == "gt" and lab == "sw:1")
+                    ctx.check(R, f, "strict-order", g, "Ok only when (last_key, last_timestamp) < the new entry, strictly",
+                              "enforce_sort_order no longer returns Ok only for strictly increasing entries", pt=p)
+                for p_ in rel:
+                    t_ = P.term_at(f, p_)
+                    names_ = set()
+                    for a_ in t_["args"][:2]:
+                        names_ |= {s_["f"] for s_ in deep(a_) if s_["k"] == "field"} | {"param%d" % s_["i"] for s_ in deep(a_) if s_["k"] == "param"}
+                    ctx.check(R, f, "compares-last-with-new", {"last_key", "last_timestamp"} <= names_ and {"param2", "param3"} <= names_,
+                              "the comparison is between (last_key, last_timestamp) and (key, timestamp)", "the sort-order test does not compare the last entry with the new one", pt=p_)
+                continue
             cm = ctx.calls(R, f, r"Ord>::cmp$|::cmp$")
             for p in P.ok_points(f):
                 g = False
@@ -401,6 +434,7 @@ def c104(ctx):
     if r:
         ok = any(rv.get("r") == "bin" and rv["op"].startswith("Sub") and any(cc.get("v") == 8 for cc in P.origin_consts(r, rv["b"]))
                  for b in r.blocks for st in b.st for rv in [st.get("rv", {})])
+        ok = ok or any(any(cc.get("v") == 8 for cc in P.origin_consts(r, P.term_at(r, p_)["args"][1])) for p_ in P.call_points(r, r"::checked_sub$"))
         ctx.check(R, r, "reader-trailer", ok, "the reader takes file_size - 8 as the offset of the trailer", "the reader no longer reads the last 8 bytes")
     mb = c.get("sst::MAX_BATCH_LEN", {}).get("v")
     ms = c.get("sst::log::MAX_BATCH_SIZE", {}).get("v")
